@@ -406,3 +406,73 @@ pub fn xor_tids() -> Vec<[u8; 12]> {
 pub fn lmsg(method: u16, class: u8, tid: [u8; 12], attrs: Vec<L>) -> LMsg {
     LMsg { method, class, tid, attrs }
 }
+
+/// Extra single-purpose sweeps shared by C01 / C02: value classes that the menus only touch at a few points.
+/// Every message carries the swept attribute FIRST and a trailing PRIORITY, so the attribute is never the last one
+/// (its padding and the next attribute's offset are exercised), plus the mirrored order.
+pub fn extra_sweep_msgs() -> Vec<LMsg> {
+    let mut v = vec![];
+    let tid = [0x3cu8; 12];
+    let mut both = |a: L, v: &mut Vec<LMsg>| {
+        v.push(lmsg(1, 2, tid, vec![a.clone(), L::Priority(0x8000_0001)]));
+        v.push(lmsg(1, 2, tid, vec![L::Software("xyz".into()), a]));
+    };
+    // every value length 0..=1030 for the blob attributes, 0..=509 for strings, as a non-last attribute
+    for n in 0..=1030usize {
+        let b: Vec<u8> = (0..n).map(|x| (x * 13 + 5) as u8).collect();
+        both(L::Data(b.clone()), &mut v);
+        if n % 3 == 0 {
+            both(L::MobilityTicket(b), &mut v);
+        }
+        if n <= 509 {
+            both(L::Software(rep('w', n)), &mut v);
+            both(L::Nonce(rep('n', n)), &mut v);
+            both(L::ErrorCode(600 + (n % 100) as u16, rep('r', n)), &mut v);
+            if n >= 1 && n <= 508 {
+                both(L::UserName(rep('u', n)), &mut v);
+                both(L::Realm(rep('m', n)), &mut v);
+            }
+        }
+    }
+    // addresses: a walking 0xFF / 0x80 / 0x01 byte through every address byte, ports with single bits
+    for kind in 0..7 {
+        let mk = |a: Addr| match kind {
+            0 => L::MappedAddress(a),
+            1 => L::XorMappedAddress(a),
+            2 => L::AlternateServer(a),
+            3 => L::XorPeerAddress(a),
+            4 => L::XorRelayedAddress(a),
+            5 => L::OtherAddress(a),
+            _ => L::ResponseOrigin(a),
+        };
+        for byte in 0..16 {
+            for val in [0xFFu8, 0x80, 0x01] {
+                let mut a6 = [0u8; 16];
+                a6[byte] = val;
+                both(mk(Addr::V6(a6, 1 << (byte % 16))), &mut v);
+                if byte < 4 {
+                    let mut a4 = [0u8; 4];
+                    a4[byte] = val;
+                    both(mk(Addr::V4(a4, 0x8000 >> byte)), &mut v);
+                }
+            }
+        }
+    }
+    // integers: every single-bit value and its complement
+    for bit in 0..64 {
+        let x = 1u64 << bit;
+        both(L::IceControlled(x), &mut v);
+        both(L::IceControlling(!x), &mut v);
+        if bit < 32 {
+            both(L::Priority(1u32 << bit), &mut v);
+            both(L::LifeTime(!(1u32 << bit)), &mut v);
+        }
+    }
+    // lists of every length 0..=8
+    for n in 0..=8usize {
+        both(L::UnknownAttributes((0..n as u16).map(|x| 0x7000 + x).collect()), &mut v);
+        both(L::PasswordAlgorithms((0..n).map(|k| (1 + (k % 2) as u16, (0..k as u8).collect::<Vec<u8>>())).collect()), &mut v);
+        both(L::PasswordAlgorithm(2, (0..(n as u8) * 3).collect()), &mut v);
+    }
+    v
+}
